@@ -6,6 +6,7 @@ import (
 	"testing"
 	"time"
 
+	"github.com/idena-network/idena-go/blockchain/fee"
 	"github.com/idena-network/idena-go/blockchain/types"
 	"github.com/idena-network/idena-go/blockchain/validation"
 	"github.com/idena-network/idena-go/common"
@@ -94,6 +95,15 @@ func TestOnlySignerPays(t *testing.T) {
 		}
 		opt.BetweenBlocks = func(h *sim.History) {
 			w := h.W
+			if len(h.Blocks) == 0 {
+				// the zero address owns coins (anybody can send there): a transaction nobody signed "recovers" to it
+				r0 := w.Replicas[0]
+				zero := common.Address{}
+				funding, _ := types.SignTx(&types.Transaction{Type: types.SendTx, AccountNonce: r0.AppState.NonceCache.GetNonce(w.God.Addr, 0) + 1, To: &zero, Amount: sim.Dna(300), MaxFee: sim.Dna(50)}, w.God.Key)
+				for _, r := range w.Replicas {
+					r.Pool.AddExternalTxs(validation.MempoolTx, sim.WireCopyTx(funding))
+				}
+			}
 			el := w.Eligible()
 			if len(el) == 0 {
 				return
@@ -120,9 +130,33 @@ func TestOnlySignerPays(t *testing.T) {
 					return r
 				}
 				with, without := mk("with"), mk("without")
+				// The named exceptions are judged on the state the transaction is applied to: a body [tx1, tx] in which
+				// tx is no longer valid once tx1 has been applied (its signer terminated itself, released its invitees,
+				// left or lost its pool ...) must be refused by strict block processing, whatever tx was worth before.
+				if rapid.IntRange(0, 2).Draw(t, "craftedPair") == 0 && info.Sender != nil && info.Hostile == "" {
+					sequentialValidity(t, w, with, tx, info)
+				}
+				_, unsignedErr := types.Sender(sim.WireCopyTx(tx))
+				if unsignedErr != nil {
+					evid.Count("tx.unrecoverable_signature")
+				}
 				if err := with.Pool.AddExternalTxs(validation.MempoolTx, tx); err != nil {
 					evid.Count("tx.refused_by_pool")
+					if unsignedErr != nil {
+						// a dishonest proposer bypasses the pool: strict block processing must refuse it as well
+						cs, cerr := with.AppState.ForCheck(with.Head().Height())
+						if cerr != nil {
+							t.Fatalf("ForCheck: %v", cerr)
+						}
+						hdr := &types.Header{ProposedHeader: &types.ProposedHeader{Height: with.Head().Height() + 1, ParentHash: with.Head().Hash(), Time: w.Now().Unix(), ProposerPubKey: w.God.Pub}}
+						if _, perr := with.Chain.VerifProcessTxs(cs, []*types.Transaction{sim.WireCopyTx(tx)}, hdr); perr == nil {
+							t.Fatalf("block processing applied a %s tx whose signature no key can be recovered from (%v): nobody signed it, yet it spends the funds of %x", sim.TxTypeNames[tx.Type], unsignedErr, common.Address{})
+						}
+					}
 					continue
+				}
+				if unsignedErr != nil {
+					t.Fatalf("the pool accepted a %s tx whose signature no key can be recovered from (%v): nobody signed it", sim.TxTypeNames[tx.Type], unsignedErr)
 				}
 				for _, f := range followers {
 					with.Pool.AddExternalTxs(validation.MempoolTx, f)
@@ -257,4 +291,63 @@ func TestSignerIsWhoSignedLast(t *testing.T) {
 		}
 		evid.NonTrivial(fmt.Sprintf("resign|%d|%v", tx.Type, recovered))
 	})
+}
+
+var relationshipChangers = []types.TxType{types.KillTx, types.KillTx, types.KillTx, types.UndelegateTx, types.KillInviteeTx, types.KillDelegatorTx, types.DelegateTx, types.SendTx, types.OnlineStatusTx}
+
+func sequentialValidity(t *rapid.T, w *sim.World, r *sim.Replica, tx *types.Transaction, info sim.TxInfo) {
+	signer, _ := types.Sender(tx)
+	var tx1 *types.Transaction
+	var info1 sim.TxInfo
+	for i := 0; i < 4; i++ {
+		tx1, info1 = w.GenTx(t, r, relationshipChangers)
+		if s1, _ := types.Sender(tx1); info1.Hostile == "" && (s1 == signer || tx.To != nil && s1 == *tx.To) {
+			break
+		}
+	}
+	if info1.Hostile != "" {
+		return
+	}
+	s1, _ := types.Sender(tx1)
+	tx2 := tx
+	if s1 == signer {
+		c := *sim.WireCopyTx(tx)
+		c.AccountNonce = tx1.AccountNonce + 1
+		c.Signature = nil
+		resigned, err := types.SignTx(&c, info.Sender.Key)
+		if err != nil {
+			t.Fatalf("sign: %v", err)
+		}
+		tx2 = resigned
+	}
+	hdr := &types.Header{ProposedHeader: &types.ProposedHeader{Height: r.Head().Height() + 1, ParentHash: r.Head().Hash(), Time: w.Now().Unix(), ProposerPubKey: w.God.Pub}}
+	cs1, err := r.AppState.ForCheck(r.Head().Height())
+	if err != nil {
+		t.Fatalf("ForCheck: %v", err)
+	}
+	if _, err := r.Chain.VerifProcessTxs(cs1, []*types.Transaction{sim.WireCopyTx(tx1)}, hdr); err != nil {
+		evid.Count("pair.first_tx_invalid")
+		return
+	}
+	evid.Eval()
+	minFee := fee.GetFeePerGasForNetwork(cs1.ValidatorsCache.NetworkSize())
+	after := validation.ValidateTx(cs1, sim.WireCopyTx(tx2), minFee, validation.InBlockTx)
+	cs2, err := r.AppState.ForCheck(r.Head().Height())
+	if err != nil {
+		t.Fatalf("ForCheck: %v", err)
+	}
+	_, perr := r.Chain.VerifProcessTxs(cs2, []*types.Transaction{sim.WireCopyTx(tx1), sim.WireCopyTx(tx2)}, hdr)
+	rel := "other"
+	if s1 == signer {
+		rel = "same-signer"
+	}
+	if after != nil {
+		evid.Count("pair.second_invalid_after_first." + rel)
+		if perr == nil {
+			t.Fatalf("block processing applied the body [%s of %s, %s of %s -> %v] although the second transaction is invalid on the state the first one leaves (%v)", sim.TxTypeNames[tx1.Type], w.Name(s1), sim.TxTypeNames[tx2.Type], w.Name(signer), tx2.To, after)
+		}
+		evid.NonTrivial(fmt.Sprintf("pair|%s|%s|%s|%v", sim.TxTypeNames[tx1.Type], sim.TxTypeNames[tx2.Type], rel, after))
+	} else {
+		evid.Count("pair.second_still_valid." + rel)
+	}
 }
